@@ -10,7 +10,9 @@ Further families of sub-check A: _c14_min.py (one liveness feature per class, aw
 trait names), _c14_more.py (lazy defaults, nested graphs, write-restricted kinds),
 _c14_bounded.py (length-bounded lists -- minlen / maxlen in every placement -- holding
 non-default contents) and _c14_ident.py (identity-hashed mutable objects as set members
-and dict keys: object-graph comparison, sharing by step, graph consistency).
+and dict keys: object-graph comparison, sharing by step, graph consistency) and _c14_modes.py
+(the copy-mode matrix per-trait copy metadata x requested mode x trait kind, judged by object
+identity one and two levels down, for clone_traits and copy_traits, directly and nested).
 
 Sub-check B (vf/monitors/_c14_defs.py): every kind of trait definition object
 (CTrait) of the catalogue through pickle 0/2/5, copy.deepcopy, copy.copy; the
@@ -27,6 +29,7 @@ from vf.monitors import _c14_min as minfam
 from vf.monitors import _c14_more as more
 from vf.monitors import _c14_bounded as bounded
 from vf.monitors import _c14_ident as ident
+from vf.monitors import _c14_modes as modes
 
 META = {
     "level": "exploration",
@@ -78,7 +81,19 @@ META = {
              "/ tuple-item), graph consistency (one original object = one copy object), liveness of the "
              "rebuilt sets / dicts incl. an observer looking through the set members, every member / key of "
              "the copy mutated with the original unchanged; the set / dict values themselves through "
-             "copy.deepcopy / pickle.  B: cases = (definition kind, round-trip mode) "
+             "copy.deepcopy / pickle.  Modes family: the copy-mode MATRIX per-trait copy metadata (default / ref / "
+             "shallow / deep) x requested mode (None / shallow / deep) x trait kind (Any, Instance, List(Any), "
+             "List(Instance), Dict(Str, Any), Dict(Str, Instance), Set(Instance), and the traits copy_traits defers: "
+             "Property with a setter, PrototypedFrom) x value class (plain list / dict / set, plain object graph, "
+             "HasTraits graph) for clone_traits(copy=m) (also traits='all', a subset, a caller's memo) and "
+             "target.copy_traits(other, copy=m) (fresh / populated target, subset, memo), directly and on objects "
+             "NESTED below the clone (Instance, List(Instance), Dict value, Any(copy='deep') container, plain "
+             "object), after random histories (aliases, back references to the root) and on second-generation "
+             "copies; original and copy are walked in parallel and judged by object IDENTITY one and two levels "
+             "down against the documented precedence: per-trait metadata wins over the requested mode; 'ref' "
+             "shares the value, 'shallow' gives a new value sharing everything below it, 'deep' shares nothing "
+             "(nested traits without metadata are demanded deep under requested 'deep', unjudged otherwise; "
+             "trait-owned containers are re-created per owner, their items judged).  B: cases = (definition kind, round-trip mode) "
              "with kinds = c01's atomic catalogue + properties (plain/validated/cached/observed, every "
              "getter/setter/validator arity), delegates, events, constants, policies, compounds, mapped, "
              "containers, instances by class/name, adapters, misc; modes = pickle 0/2/5, deepcopy, copy; "
@@ -111,6 +126,15 @@ META = {
                   "ident_sharing_checked": 520, "ident_alias_checked": 520,
                   "ident_objects_reached_by_two_paths": 2500, "ident_members_mutated": 2700,
                   "ident_notify_probes": 3400, "ident_rejections": 5600, "ident_value_copies_ok": 190,
+                  "modes_states": 32, "modes_states_nested": 8, "modes_copies": 480, "modes_copies_ok": 480,
+                  "modes_second_generation_states": 32, "modes_slots_judged_direct": 11000,
+                  "modes_slots_judged_nested": 39000, "modes_deferred_slots_judged": 8000,
+                  "modes_shallow_under_deep_judged": 4500, "modes_l2_shared_confirmed": 32000,
+                  "modes_l2_copied_confirmed": 41000, "modes_shared_confirmed": 18000, "modes_cell_None_None": 450,
+                  "modes_cell_None_shallow": 450, "modes_cell_None_deep": 1600, "modes_cell_ref_None": 3800,
+                  "modes_cell_ref_shallow": 3800, "modes_cell_ref_deep": 3800, "modes_cell_shallow_None": 4300,
+                  "modes_cell_shallow_shallow": 4300, "modes_cell_shallow_deep": 4300, "modes_cell_deep_None": 7300,
+                  "modes_cell_deep_shallow": 7300, "modes_cell_deep_deep": 7300,
                   "def_kinds": 120, "def_roundtrips": 600, "def_roundtrips_sanitized": 300,
                   "def_validate_comparisons": 120000, "def_install_steps": 80000},
         "thorough": {"evaluations": 10000000, "states": 12000, "copies": 80000, "batteries_completed": 80000,
@@ -136,6 +160,16 @@ META = {
                      "ident_sharing_checked": 17500, "ident_alias_checked": 17500,
                      "ident_objects_reached_by_two_paths": 80000, "ident_members_mutated": 90000,
                      "ident_notify_probes": 110000, "ident_rejections": 180000, "ident_value_copies_ok": 6300,
+                     "modes_states": 1200, "modes_states_nested": 300, "modes_copies": 18000, "modes_copies_ok": 18000,
+                     "modes_second_generation_states": 1152, "modes_slots_judged_direct": 396000,
+                     "modes_slots_judged_nested": 1404000, "modes_deferred_slots_judged": 288000,
+                     "modes_shallow_under_deep_judged": 162000, "modes_l2_shared_confirmed": 1152000,
+                     "modes_l2_copied_confirmed": 1476000, "modes_shared_confirmed": 648000,
+                     "modes_cell_None_None": 16200, "modes_cell_None_shallow": 16200, "modes_cell_None_deep": 57600,
+                     "modes_cell_ref_None": 136800, "modes_cell_ref_shallow": 136800, "modes_cell_ref_deep": 136800,
+                     "modes_cell_shallow_None": 154800, "modes_cell_shallow_shallow": 154800,
+                     "modes_cell_shallow_deep": 154800, "modes_cell_deep_None": 262800,
+                     "modes_cell_deep_shallow": 262800, "modes_cell_deep_deep": 262800,
                      "def_kinds": 120, "def_roundtrips": 600, "def_roundtrips_sanitized": 300,
                      "def_validate_comparisons": 120000, "def_install_steps": 80000},
     },
@@ -153,6 +187,13 @@ META = {
         "known finding of the obj family); container values pickled directly have the back references to "
         "their owner removed first (a pickle starting inside a cycle restores the owner before the container "
         "is filled)",
+        "modes family: the kind of copy made of a trait value follows the documented precedence (copy_traits / "
+        "clone_traits docstrings: the requested mode applies to 'any trait that does not have explicit copy "
+        "metadata', None meaning 'copy reference'); over-copying (a deep copy where the class author asked for "
+        "'shallow' or 'ref') is a violation like under-copying: state meant to stay shared is silently duplicated; "
+        "traits without metadata of objects NESTED below the copy are only demanded deep under requested 'deep' "
+        "(whether None / 'shallow' travel down is not judged), and never judged below copy_traits; the identity of "
+        "a trait-owned container under 'ref' is not judged (it is re-created for its owner), its items' is",
         "round-tripped definitions are compared behaviourally with the original (differential), "
         "objects without value equality by type and attributes, UUID defaults by type",
     ],
@@ -168,5 +209,6 @@ def run(ctx):
     more.run_more(ctx)
     bounded.run_bounded(ctx)
     ident.run_ident(ctx)
+    modes.run_modes(ctx)
     objs.run_objects(ctx)
     defs.run_defs(ctx, shard_offset=5)
